@@ -11,6 +11,7 @@ import (
 	"verif/rec"
 	"verif/wv"
 
+	"github.com/consensys/gnark/constraint/solver"
 	"github.com/consensys/gnark/frontend"
 	"pgregory.net/rapid"
 )
@@ -80,7 +81,11 @@ func c04Run(c c04Case) (viol bool, desc string, res eng.Result, expectAccept boo
 			}
 			c04Compiled[key] = sys
 		}
-		serr := sys.SolveCircuit(asg, cs.TolerantHints()...)
+		var hopts []solver.Option
+		if !expectAccept {
+			hopts = cs.TolerantHints() // dishonest witness: the prover is not bound to the shipped hints
+		}
+		serr := sys.SolveCircuit(asg, hopts...)
 		res.Outcome = eng.Reject
 		if serr == nil {
 			res.Outcome = eng.Accept
